@@ -33,6 +33,7 @@ uint8_t g_wval;     /* value the file received there */
 unsigned g_wcount;  /* how many times it was written (saturating at 2) */
 uint64_t g_fuel;
 unsigned g_calls;
+unsigned g_ncalls;
 
 #include "lib/sqfs/src/io/file.c"
 
@@ -48,6 +49,11 @@ ssize_t pwrite(int fd, const void *buf, size_t n, off_t off)
 	VERIF_ASSERT(VERIF_R_OK(buf, n), "C12.write_at.buf_readable");
 	if (g_calls < 3)
 		g_calls++;
+#ifdef C12_MAX_CALLS
+	/* bounded twin (see cases.py): at most C12_MAX_CALLS system calls */
+	VERIF_ASSUME(g_ncalls < C12_MAX_CALLS);
+	g_ncalls++;
+#endif
 
 	r = c12_any_outcome(n, "pwrite.ret");
 	if (r < 0) {
@@ -101,6 +107,7 @@ void harness(void)
 	g_done = 0;
 	g_hard = g_zero = false;
 	g_calls = 0;
+	g_ncalls = 0;
 	g_woff = verif_nd_u64("woff");
 	g_wval = 0;
 	g_wcount = 0;
